@@ -44,6 +44,9 @@ def CidVerificationError.variant : CidVerificationError → String
 inductive CidStoreVerificationError where
   | cidVerificationError (store : String) (e : CidVerificationError)
   | missingReference (source target : String) (targetCid : Cid)
+  /-- a value-store entry whose text is not JSON (`verify_raw_value`, added by the repair of the lazy
+  `RawValue::get_value` panic) -/
+  | malformedValue (cid : Cid)
 deriving Repr, DecidableEq, Inhabited
 
 /-- `DataVerifierError` -/
@@ -52,11 +55,14 @@ inductive DataVerifierError where
   | peerIdNotFound (peer : String)
   | signatureMismatch (peer : String) (cids : List Cid)
   | mergeMismatch (peer : String)
+  /-- the trace names a CID that no store holds (was `expect("cannot happen in a checked CID store")`) -/
+  | cidNotFound (cid : Cid)
 deriving Repr, DecidableEq, Inhabited
 
 def DataVerifierError.variant : DataVerifierError → String
   | .malformedKey _ => "MalformedKey" | .peerIdNotFound _ => "PeerIdNotFound"
   | .signatureMismatch .. => "SignatureMismatch" | .mergeMismatch _ => "MergeMismatch"
+  | .cidNotFound _ => "CidNotFound"
 
 /-- the two `PreparationError` variants the verification step produces -/
 inductive VerificationError where
@@ -92,6 +98,8 @@ structure VerifyEnv where
   verifySig : PK → Bytes → Sig → Bool
   /-- `verify_value` / `verify_raw_value`: does the CID text name these bytes -/
   cidCheck : Cid → Bytes → Except CidVerificationError Unit
+  /-- `serde_json::from_str::<JValue>` succeeds on the text of a value-store entry -/
+  isJson : String → Bool := fun _ => true
 
 /-- the parts of `InterpreterData` the verification step reads -/
 structure VData (E : VerifyEnv) where
@@ -118,8 +126,8 @@ def realCidCheck (cid : Cid) (bytes : Bytes) : Except CidVerificationError Unit 
 `interpreter-cid/src/lib.rs`, and every error variant the model can produce is a variant of the Rust enums -/
 theorem generated_tables_agree :
     Gen.jsonCodec = Crypto.jsonCodec ∧
-    (["MalformedKey", "PeerIdNotFound", "SignatureMismatch", "MergeMismatch"].all fun v => Gen.dataVerifierErrorVariants.contains v) = true ∧
-    (["CidVerificationError", "MissingReference"].all fun v => Gen.cidStoreVerificationErrorVariants.contains v) = true ∧
+    (["MalformedKey", "PeerIdNotFound", "SignatureMismatch", "MergeMismatch", "CidNotFound"].all fun v => Gen.dataVerifierErrorVariants.contains v) = true ∧
+    (["CidVerificationError", "MissingReference", "MalformedValue"].all fun v => Gen.cidStoreVerificationErrorVariants.contains v) = true ∧
     (["CidStoreVerificationError", "DataSignatureCheckError"].all fun v => Gen.preparationVariants.contains v) = true := by decide
 
 /-! ## `CidInfo::verify` -/
@@ -139,6 +147,14 @@ def verifyStore {α : Type} (E : VerifyEnv) (name : String) (ser : α → String
     match E.cidCheck p.1 (strBytes (ser p.2)) with
     | .ok () => .ok ()
     | .error e => .error (.cidVerificationError name e)) store
+
+/-- `CidStore<RawValue>::verify_raw_value`: every key is the CID of its text, and the text is JSON
+(entry by entry: the CID check of an entry comes before its JSON check) -/
+def verifyValueStore (E : VerifyEnv) (store : List (Cid × String)) : Except CidStoreVerificationError Unit :=
+  allOk (fun (p : Cid × String) =>
+    match E.cidCheck p.1 (strBytes p.2) with
+    | .error e => .error (.cidVerificationError "value_store" e)
+    | .ok () => if E.isJson p.2 then .ok () else .error (.malformedValue p.1)) store
 
 /-- `CidStore::check_reference` -/
 def checkReference {α : Type} (store : List (Cid × α)) (source target : String) (targetCid : Cid) :
@@ -179,7 +195,7 @@ def CidInfo.verifyServiceResultStore (E : VerifyEnv) (ci : CidInfo) : Except Cid
 
 /-- `CidInfo::verify` -/
 def CidInfo.verify (E : VerifyEnv) (ci : CidInfo) : Except CidStoreVerificationError Unit :=
-  andThen (verifyStore E "value_store" id ci.values) <|
+  andThen (verifyValueStore E ci.values) <|
   andThen (verifyStore E "tetraplet_store" Tetraplet.json ci.tetraplets) <|
   andThen (ci.verifyCanonResultStore E) <|
   ci.verifyServiceResultStore E
@@ -203,11 +219,6 @@ def tryPushCid {E : VerifyEnv} (g : Grouped E) (peerPk : String) (cid : Cid) : V
     .ok (g.map fun p => if p.1 == peerPk then (p.1, { p.2 with cids := p.2.cids ++ [cid] }) else p)
   else .error (.peerIdNotFound peerPk)
 
-def siteServiceResult : String := "verification.rs:collect_peers_cids_from_trace:service_result_store.get(cid).expect(cannot happen in a checked CID store)"
-def siteCallTetraplet : String := "verification.rs:collect_peers_cids_from_trace:tetraplet_store.get(service_result.tetraplet_cid).expect(cannot happen in a checked CID store)"
-def siteCanonResult : String := "verification.rs:collect_peers_cids_from_trace:canon_result_store.get(cid).expect(cannot happen in a checked CID store)"
-def siteCanonTetraplet : String := "verification.rs:collect_peers_cids_from_trace:tetraplet_store.get(canon_result.tetraplet).expect(cannot happen in a checked CID store)"
-
 /-- the body of the loop of `collect_peers_cids_from_trace` up to `try_push_cid`: which peer a trace
 state is attributed to and under which CID (`none`: the state carries no signed result) -/
 def stateContribution (ci : CidInfo) : ExecutedState → VR (Option (String × Cid))
@@ -216,17 +227,17 @@ def stateContribution (ci : CidInfo) : ExecutedState → VR (Option (String × C
     | none => .ok none
     | some cid =>
       match lookup ci.serviceResults cid with
-      | none => .panic siteServiceResult
+      | none => .error (.cidNotFound cid)
       | some sr =>
         match lookup ci.tetraplets sr.tetrapletCid with
-        | none => .panic siteCallTetraplet
+        | none => .error (.cidNotFound sr.tetrapletCid)
         | some t => .ok (some (t.peerPk, cid))
   | .canon (.executed cid) =>
     match lookup ci.canonResults cid with
-    | none => .panic siteCanonResult
+    | none => .error (.cidNotFound cid)
     | some cr =>
       match lookup ci.tetraplets cr.tetraplet with
-      | none => .panic siteCanonTetraplet
+      | none => .error (.cidNotFound cr.tetraplet)
       | some t => .ok (some (t.peerPk, cid))
   | _ => .ok none
 
